@@ -925,8 +925,235 @@ def check_C14(tier: str, seed: int) -> int:
         w.cleanup()
 
 
+
+# ==========================================================================
+# C09  layer parents and visibility follow the nesting levels
+# ==========================================================================
+def forests(n: int):
+    """all level sequences of length n: first 0, each at most one more than its predecessor"""
+    def rec(prefix):
+        if len(prefix) == n:
+            yield list(prefix)
+            return
+        for v in range(0, prefix[-1] + 2):
+            prefix.append(v)
+            yield from rec(prefix)
+            prefix.pop()
+    if n == 0:
+        yield []
+    else:
+        yield from rec([0])
+
+
+def forest_sprite(levels: List[int], flags: List[int], rng: random.Random) -> dict:
+    n = len(levels)
+    layers = []
+    cels = {}
+    for i in range(n):
+        group = i + 1 < n and levels[i + 1] > levels[i]
+        layers.append({"flags": flags[i], "ltype": 1 if group else 0, "level": levels[i], "blend": 0, "opacity": 255, "name": "L%d" % i,
+                       "tileset": 0, "ud": None, "default_w": 0, "default_h": 0})
+        if not group:
+            cels[(0, i)] = {"kind": "raw", "x": i, "y": 0, "w": 1, "h": 1, "opacity": 255, "pixels": [(10 + i, 20, 30, 255)], "ud": None}
+    return {"width": max(n, 1), "height": 1, "depth": 32, "transparent": 0, "durations": [100], "speed": 100, "palette_chunks": [],
+            "palette": None, "sprite_ud": None, "ext_files": [], "tilesets": [], "layers": layers, "cels": cels, "tags": [],
+            "has_tags_chunk": False, "slices": []}
+
+
+def direct_C09(s, data, blk) -> List[str]:
+    out = []
+    levels = [l["level"] for l in s["layers"]]
+    ps = gen.parents_of(levels)
+    vis = gen.visible_of(s)
+    lines4 = [l for l in blk[0] if l and l[0] == 4]
+    if len(lines4) != len(levels):
+        return ["layer count %d, expected %d" % (len(lines4), len(levels))]
+    for i, l in enumerate(lines4):
+        if l[7] != ps[i]:
+            out.append("parent of layer %d is %d, nearest preceding smaller level is %d (levels %s)" % (i, l[7], ps[i], levels))
+        if l[7] >= i:
+            out.append("parent %d of layer %d does not have a lower id" % (l[7], i))
+        if l[8] != vis[i]:
+            out.append("is_visible(layer %d) = %d, flags of it and its ancestors give %d (levels %s)" % (i, l[8], vis[i], levels))
+    im = images_of(blk, 22).get((0,))
+    if im is not None:
+        W = s["width"]
+        for i in range(len(levels)):
+            c = s["cels"].get((0, i))
+            if c is None or not (0 <= c["x"] < W) or c["y"] != 0:
+                continue
+            shown = im[2 + c["x"]] != 0
+            if shown != bool(vis[i]):
+                out.append("layer %d (visible=%d) %s in the frame image" % (i, vis[i], "shows" if shown else "does not show"))
+    return out[:3]
+
+
+def check_C09(tier: str, seed: int) -> int:
+    v = Verdict("C09", tier, seed, "proof")
+    ob = vplib.check_obligations("C09", expected=["C09_parent", "C09_parent_lt", "C09_visible", "C09_hidden"])
+    vplib.build_harness(["release", "dev"])
+    w = Work("C09")
+    try:
+        rng = random.Random(seed)
+        maxn = 6 if tier == "quick" else 8
+        cases = []
+        exhaustive_n = 0
+        for n in range(1, maxn + 1):
+            for lv in forests(n):
+                for mask in range(2 ** n):
+                    flags = [(1 if (mask >> i) & 1 else 0) | (rng.randrange(64) << 1) for i in range(n)]
+                    s = forest_sprite(lv, flags, rng)
+                    cases.append((s, gen.encode(s, None, rng)))
+                    exhaustive_n += 1
+        for _ in range(60 if tier == "quick" else 600):
+            n = rng.randint(9, 300)
+            lv = gen.gen_levels(rng, n)
+            s = forest_sprite(lv, [rng.randrange(128) for _ in range(n)], rng)
+            cases.append((s, gen.encode(s, None, rng)))
+        # deep chains on a 2 MiB thread, hidden root / visible root
+        for depth, root in ((20000, 1), (20000, 0), (65535 if tier != "quick" else 30000, 1)):
+            lv = list(range(depth))
+            s = forest_sprite(lv, [root] + [1] * (depth - 1), rng)
+            cases.append((s, gen.encode(s, None, rng)))
+        paths = [w.put(d) for _, d in cases]
+        ib = vplib.impl_observe("release", paths, w.dir, 3, timeout=1800)
+        ib_dev = vplib.impl_observe("dev", paths[exhaustive_n:], w.dir, 3, timeout=1800)
+        # the model is compared on everything except the three deep chains (quadratic in the depth on inductive integers)
+        nmodel = len(paths) - 3
+        mb = vplib.model_observe(paths[:nmodel], w.dir, 3, timeout=2400)
+        corr_fail, direct_fail = [], []
+        for i, (s, data) in enumerate(cases):
+            d = same_block(ib[i], mb[i], [1, 2, 4, 22]) if i < nmodel else None
+            if d:
+                corr_fail.append({"input": paths[i], "levels": [l["level"] for l in s["layers"]][:40], "diff": d, "_data": data})
+            blocks = [ib[i]] + ([ib_dev[i - exhaustive_n]] if i >= exhaustive_n else [])
+            for b in blocks:
+                if outcome(b) != 0 or vplib.section_panic(b) is not None:
+                    direct_fail.append({"what": "forest does not load / accessor failed", "levels": [l["level"] for l in s["layers"]][:40],
+                                        "comments": b[1][:3] if b else None, "_data": data})
+                    continue
+                for msg in direct_C09(s, data, b):
+                    direct_fail.append({"what": msg, "_data": data})
+        proof_level_coverage(v, ob, {
+            "evaluations": len(cases), "distinct_nontrivial": exhaustive_n,
+            "rule": "every forest level sequence of length 1..%d with every assignment of visible flags (exhaustive: %d sprites), random forests of 9..300 "
+                    "layers, nested chains of depth 20000..65535 (release and dev builds, 2 MiB thread); each non-group layer carries a one-pixel cel so the "
+                    "frame image reveals visibility; parent()/is_visible() against the nearest-smaller-level rule computed in Python; model = implementation"
+                    % (maxn, exhaustive_n),
+            "samples": [{"levels": [l["level"] for l in c[0]["layers"]], "flags": [l["flags"] & 1 for l in c[0]["layers"]]} for c in cases[200:203]],
+            "exhaustive": True, "correspondence_disagreements": len(corr_fail), "direct_failures": len(direct_fail)})
+        return finish_with(v, ob, corr_fail, direct_fail)
+    finally:
+        w.cleanup()
+
+
+# ==========================================================================
+# C18  utility helpers
+# ==========================================================================
+def check_C18(tier: str, seed: int) -> int:
+    v = Verdict("C18", tier, seed, "proof")
+    ob = vplib.check_obligations("C18", expected=["C18_extrude", "C18_lookup_transparent", "C18_lookup_absent", "C18_lookup_present", "C18_indexed"])
+    vplib.build_harness(["release", "dev"])
+    w = Work("C18")
+    try:
+        rng = random.Random(seed)
+        n = 300 if tier == "quick" else 5000
+        lines = []
+        meta = []
+        for i in range(n):
+            wd, ht = rng.randint(1, 24 if tier != "quick" else 10), rng.randint(1, 24 if tier != "quick" else 10)
+            px = [rng.randrange(2 ** 32) for _ in range(wd * ht)]
+            lines.append("E %d %d %s" % (wd, ht, " ".join(map(str, px))))
+            meta.append(("E", wd, ht, px))
+        # palettes with duplicates and indices >= 256
+        for i in range(n):
+            first = rng.choice([0, 0, 250, 254, 300])
+            cols = [(rng.randrange(4), rng.randrange(3), rng.randrange(2), rng.choice([255, 255, 0, 77])) for _ in range(rng.randint(1, 12))]
+            fr = ase.Frame(chunks=[ase.PaletteChunk(first=first, entries=cols)])
+            path = w.put(ase.serialize(ase.Sprite(width=1, height=1, frames=[fr])), "pal")
+            pal = {first + k: c for k, c in enumerate(cols)}
+            failure, transparent = rng.randrange(256), rng.choice([-1, rng.randrange(256)])
+            if i % 2 == 0:
+                q = [(rng.randrange(5), rng.randrange(4), rng.randrange(3), rng.choice([255, 255, 255, 254, 0])) for _ in range(12)]
+                lines.append("M %s %d %d %d %s" % (path, failure, transparent, len(q), " ".join("%d %d %d %d" % c for c in q)))
+                meta.append(("M", pal, failure, transparent, q))
+            else:
+                wd, ht = rng.randint(1, 5), rng.randint(1, 5)
+                q = [(rng.randrange(5), rng.randrange(4), rng.randrange(3), rng.choice([255, 255, 255, 254, 0])) for _ in range(wd * ht)]
+                packed = [r | g << 8 | b << 16 | a << 24 for r, g, b, a in q]
+                lines.append("I %s %d %d %d %d %s" % (path, failure, transparent, wd, ht, " ".join(map(str, packed))))
+                meta.append(("I", pal, failure, transparent, q, wd, ht))
+        res = {prof: vplib.run_sharded([vplib.impl_driver(prof), "util"], lines, w.dir, "util_" + prof) for prof in ("release", "dev")}
+        mb = vplib.run_sharded([vplib.MODEL_DRIVER, "util"], lines, w.dir, "util_model", model=True)
+        corr_fail, direct_fail = [], []
+
+        def lookup_ok(pal, failure, transparent, c, got) -> Optional[str]:
+            r, g, b, a = c
+            if a != 255:
+                want = failure if transparent == -1 else transparent
+                return None if got == want else "alpha %d: got %d, transparent/failure index is %d" % (a, got, want)
+            occ = [k for k, e in pal.items() if e[:3] == (r, g, b)]
+            if not occ:
+                return None if got == failure else "colour absent from the palette: got %d, failure index is %d" % (got, failure)
+            if all(k < 256 for k in occ):
+                return None if got in occ else "opaque colour at palette indices %s: got %d" % (occ, got)
+            return None if (got in [k for k in occ if k < 256] or got == failure) else "got %d for occurrences %s" % (got, occ)
+        for i, m in enumerate(meta):
+            for prof in ("release", "dev"):
+                b = res[prof][i]
+                if b is None or not b[0]:
+                    direct_fail.append({"what": "utility call failed", "case": lines[i][:200], "profile": prof})
+                    continue
+                ln = b[0][0]
+                if m[0] == "E":
+                    _, wd, ht, px = m
+                    exp = [60, wd + 2, ht + 2] + [px[min(max(y - 1, 0), ht - 1) * wd + min(max(x - 1, 0), wd - 1)] for y in range(ht + 2) for x in range(wd + 2)]
+                    if ln != exp:
+                        direct_fail.append({"what": "extrude_border differs from the clamp formula", "case": lines[i][:200], "got": ln[:12], "profile": prof})
+                elif m[0] == "M":
+                    _, pal, failure, transparent, q = m
+                    if ln[0] != 61 or len(ln) != 1 + len(q):
+                        direct_fail.append({"what": "mapper case failed", "case": lines[i][:200], "got": ln[:8]})
+                    else:
+                        for c, got in zip(q, ln[1:]):
+                            e = lookup_ok(pal, failure, transparent, c, got)
+                            if e:
+                                direct_fail.append({"what": "PaletteMapper::lookup: " + e, "colour": c, "palette": {k: list(vv) for k, vv in pal.items()}, "profile": prof})
+                                break
+                else:
+                    _, pal, failure, transparent, q, wd, ht = m
+                    if ln[:3] != [62, wd, ht] or len(ln) != 3 + wd * ht:
+                        direct_fail.append({"what": "to_indexed_image: wrong dimensions or length", "case": lines[i][:200], "got": ln[:8]})
+                    else:
+                        for c, got in zip(q, ln[3:]):
+                            e = lookup_ok(pal, failure, transparent, c, got)
+                            if e:
+                                direct_fail.append({"what": "to_indexed_image: " + e, "colour": c, "profile": prof})
+                                break
+            # model = implementation whenever the answer is determined (no duplicate RGB among the entries)
+            bi, bm = res["release"][i], mb[i]
+            det = m[0] == "E" or len({e[:3] for e in m[1].values()}) == len(m[1])
+            if det and (bi is None or bm is None or bi[0] != bm[0]):
+                corr_fail.append({"case": lines[i][:200], "impl": bi[0][0][:10] if bi and bi[0] else None, "model": bm[0][0][:10] if bm and bm[0] else None})
+        # the feature gate: the crate builds without the feature
+        r = subprocess.run(["cargo", "check", "--offline", "-q", "--lib"], cwd=vplib.REPO, env=vplib.ENV, stdout=subprocess.PIPE, stderr=subprocess.PIPE, text=True)
+        if r.returncode != 0:
+            direct_fail.append({"what": "the crate does not build without the utils feature", "stderr": r.stderr[-800:]})
+        proof_level_coverage(v, ob, {
+            "evaluations": 2 * len(lines), "distinct_nontrivial": len(set(lines)),
+            "rule": "random images (1..24 x 1..24, arbitrary pixels) through extrude_border against the clamp formula; random palettes with duplicate colours, "
+                    "alpha below 255 and indices >= 256, random mapping options and query colours through PaletteMapper::lookup and to_indexed_image against the "
+                    "documented rule (set-valued where duplicates make the index ambiguous); release and dev builds of the harness with features=[utils]; "
+                    "cargo check of the crate without the feature; model = implementation where the answer is determined",
+            "samples": [l[:120] for l in lines[:2] + lines[-2:]],
+            "correspondence_disagreements": len(corr_fail), "direct_failures": len(direct_fail)})
+        return finish_with(v, ob, corr_fail, direct_fail)
+    finally:
+        w.cleanup()
+
+
 CHECKS: Dict[str, Callable[[str, int], int]] = {"C01": check_C01, "C02": check_C02, "C04": check_C04, "C05": check_C05, "C06": check_C06,
-                                                "C08": check_C08, "C13": check_C13, "C14": check_C14, "C19": check_C19}
+                                                "C08": check_C08, "C09": check_C09, "C13": check_C13, "C18": check_C18, "C14": check_C14, "C19": check_C19}
 
 
 
